@@ -4,4 +4,5 @@ CONSTANTS
   DEV_StaticRegistersCenter = FALSE
   DEV_ReassignKeepsOld = FALSE
   DEV_RemoveNeedsLanelets = FALSE
+  DEV_ForgetsCentre = FALSE
 ACTION_CONSTRAINT Emit
